@@ -3,6 +3,8 @@ pub mod c03;
 pub mod c04;
 pub mod c05;
 pub mod c06;
+pub mod c07;
+pub mod c08;
 pub mod c11;
 pub mod c12;
 pub mod c13;
@@ -31,6 +33,8 @@ pub fn plan(prop: &str, tier: Tier) -> Option<Plan> {
     "C04" => Some(c04::plan(tier)),
     "C05" => Some(c05::plan(tier)),
     "C06" => Some(c06::plan(tier)),
+    "C07" => Some(c07::plan(tier)),
+    "C08" => Some(c08::plan(tier)),
     "C11" => Some(c11::plan(tier)),
     "C12" => Some(c12::plan(tier)),
     "C13" => Some(c13::plan(tier)),
